@@ -5,6 +5,7 @@ import Grexv.Lemmas.Lex
 import Grexv.Lemmas.EndToEnd
 import Grexv.Props.C03
 import Grexv.Lemmas.RepPipeline
+import Grexv.Lemmas.RepElim
 
 /-!
 # C01 — soundness: the generated regex matches every test case (stage lemmas)
@@ -199,6 +200,87 @@ theorem repetitions_sound_automaton (cfg : Config) (env : Env) (ws : List Str) (
   intro hnil
   rw [hnil] at hflat
   exact hne (by simpa [expandAll] using hflat.symm)
+
+/-- **C01 with `-r`, S1–S7, all inputs** (no class option, any thresholds): for every non-empty stored test case `w`, the expression
+`Expression::from` computes from the minimised automaton (the first candidate of `RegExp::from`, and the final one whenever an anchor is
+in place) has, in its symbol-level language, a sequence of labels that carries the converted cluster of `w` (label by label the
+characters of the grapheme and a range of counts `{m,n}` containing the grapheme's count) and therefore *spells* `w`: `w` is the
+concatenation of the labels' characters, each label `{m,n}` repeated some `k` times with `m ≤ k ≤ n` (`Dfa.Spells`).  What remains between this and the property is the printing of counted labels (`x{m,n}`,
+`(?:…){n}`) and its reading by the regex crate, which is compared per input. -/
+theorem repetitions_sound_expression (cfg : Config) (env : Env) (ws : List Str) (st : Stages)
+    (h : regExpFrom cfg env ws = .ok st) (hrep : cfg.rep = true) (hnc : cfg.charClassFeature = false)
+    (hseg : ∀ w ∈ st.sorted, (env.segOf w).flatten = w ∧ ∀ p ∈ env.segOf w, p ≠ [])
+    (w : Str) (hw : w ∈ st.sorted) (hne : w ≠ []) :
+    ∃ ls : Word, st.firstAst.lang ls ∧ Dfa.CarriesL ls (convertRepetitions cfg (clusterOfPieces (env.segOf w))) ∧ Dfa.Spells ls w := by
+  obtain ⟨_, hflat, _⟩ := repetitions_sound_automaton cfg env ws st h hrep hnc hseg w hw
+  suffices hh : ∃ ls : Word, st.firstAst.lang ls ∧ Dfa.CarriesL ls (convertRepetitions cfg (clusterOfPieces (env.segOf w))) by
+    obtain ⟨ls, h1, h2⟩ := hh
+    refine ⟨ls, h1, h2, ?_⟩
+    have hcounts : ∀ g ∈ convertRepetitions cfg (clusterOfPieces (env.segOf w)), g.min = g.max := by
+      apply convertRepetitions_counts
+      intro g hg
+      simp only [clusterOfPieces, List.mem_flatMap] at hg
+      obtain ⟨it, _, hg⟩ := hg
+      split at hg
+      · simp at hg; obtain ⟨c, _, rfl⟩ := hg; rfl
+      · simp at hg; subst hg; rfl
+    have := Dfa.carriesL_spells h2 hcounts
+    rwa [hflat] at this
+  have hpc : clusterOfPieces (env.segOf w) ∈ preClusters cfg env st.sorted := by
+    simp only [preClusters, hnc, Bool.false_eq_true, ite_false]
+    exact List.mem_map_of_mem hw
+  have hcne : convertRepetitions cfg (clusterOfPieces (env.segOf w)) ≠ [] := by
+    intro hnil
+    rw [hnil] at hflat
+    exact hne (by simpa [expandAll] using hflat.symm)
+  obtain ⟨_, _, h3⟩ := rep_first_candidate cfg env ws st h hrep (fun w hw => (hseg w hw).2)
+  obtain ⟨ls, hls, hcar⟩ := h3 _ hpc hcne
+  refine ⟨ls, ?_, hcar⟩
+  obtain ⟨_, _, _, _, h5⟩ := from_stages_shape cfg env ws st h
+  rw [h5, ofDfa_eq]
+  cases hb : ((List.range st.minimized.nodes).reverse.foldl (elimStep cfg) (elimInit cfg st.minimized st.minimized.dfs)).b.get 0 with
+  | none => rw [hb] at hls; exact absurd hls (by simp [olang])
+  | some e => rw [hb] at hls; simpa [olang] using hls
+
+/-- with an anchor in place the first candidate is the expression that is printed -/
+theorem repetitions_sound_final_expression (cfg : Config) (env : Env) (ws : List Str) (st : Stages)
+    (h : regExpFrom cfg env ws = .ok st) (hrep : cfg.rep = true) (hnc : cfg.charClassFeature = false)
+    (ha : (cfg.noStart && cfg.noEnd) = false)
+    (hseg : ∀ w ∈ st.sorted, (env.segOf w).flatten = w ∧ ∀ p ∈ env.segOf w, p ≠ [])
+    (w : Str) (hw : w ∈ st.sorted) (hne : w ≠ []) :
+    ∃ ls : Word, st.finalAst.lang ls ∧ Dfa.Spells ls w := by
+  obtain ⟨ls, h1, _, h3⟩ := repetitions_sound_expression cfg env ws st h hrep hnc hseg w hw hne
+  rw [from_final_anchored cfg env ws st h ha]
+  exact ⟨ls, h1, h3⟩
+
+/-- **C01 with `-r`, every anchor setting, up to the expression that is printed** whichever expression `RegExp::from` keeps (with both
+anchors disabled the self-check may fall back to the expression of the unminimised trie or to the plain alternation), every non-empty
+stored test case is spelled by a label sequence of its symbol-level language -/
+theorem repetitions_sound_any_anchor (cfg : Config) (env : Env) (ws : List Str) (st : Stages)
+    (h : regExpFrom cfg env ws = .ok st) (hrep : cfg.rep = true) (hnc : cfg.charClassFeature = false)
+    (hseg : ∀ w ∈ st.sorted, (env.segOf w).flatten = w ∧ ∀ p ∈ env.segOf w, p ≠ [])
+    (w : Str) (hw : w ∈ st.sorted) (hne : w ≠ []) :
+    ∃ ls : Word, st.finalAst.lang ls ∧ Dfa.Spells ls w := by
+  obtain ⟨_, hflat, _⟩ := repetitions_sound_automaton cfg env ws st h hrep hnc hseg w hw
+  have hpc : clusterOfPieces (env.segOf w) ∈ preClusters cfg env st.sorted := by
+    simp only [preClusters, hnc, Bool.false_eq_true, ite_false]
+    exact List.mem_map_of_mem hw
+  have hcne : convertRepetitions cfg (clusterOfPieces (env.segOf w)) ≠ [] := by
+    intro hnil
+    rw [hnil] at hflat
+    exact hne (by simpa [expandAll] using hflat.symm)
+  obtain ⟨ls, h1, h2⟩ := rep_final_expr cfg env ws st h hrep (fun w hw => (hseg w hw).2) _ hpc hcne
+  refine ⟨ls, h1, ?_⟩
+  have hcounts : ∀ g ∈ convertRepetitions cfg (clusterOfPieces (env.segOf w)), g.min = g.max := by
+    apply convertRepetitions_counts
+    intro g hg
+    simp only [clusterOfPieces, List.mem_flatMap] at hg
+    obtain ⟨it, _, hg⟩ := hg
+    split at hg
+    · simp at hg; obtain ⟨c, _, rfl⟩ := hg; rfl
+    · simp at hg; subst hg; rfl
+  have := Dfa.carriesL_spells h2 hcounts
+  rwa [hflat] at this
 
 /-- the input on which the unrepaired minimisation lost `ycc`, evaluated by the kernel on the model (the correspondence stream
 compares the same input with the implementation) -/
